@@ -14,8 +14,9 @@ Definition EOpen (t u : Z) : tev := (t, Open (zn u)).
 Definition EClose (t u : Z) : tev := (t, Close (zn u)).
 Definition EProbe (t p : Z) (ok : bool) : tev := (t, Probe (zn p) ok).
 
-Definition H (passive : bool) (fd mf : Z) (topo : list (list Z)) (mc : list Z) : hcfg :=
-  mkH passive fd mf (map (map zn) topo) mc.
+(* mc: max_connections as configured per upstream; ucc: the passive unhealthy_connection_count *)
+Definition H (passive : bool) (fd mf : Z) (topo : list (list Z)) (mc : list Z) (ucc : Z) : hcfg :=
+  mkH passive fd mf (map (map zn) topo) (map (effective_max_conns passive ucc) mc).
 
 Definition A (kind e d j : Z) : att :=
   ((if kind =? 0 then ADialOk else if kind =? 1 then ADialErr e else ANoUpstream), d, j).
@@ -53,7 +54,9 @@ Inductive c11case :=
 (* peer.setHealthy *)
 | HSet (old : Z) (healthy : bool) (nw : Z) (swapped : bool)
 (* Provision's default for max_fails *)
-| HMaxFails (c : hcfg) (obs : Z).
+| HMaxFails (c : hcfg) (obs : Z)
+(* Upstream.provision: the effective MaxConnections of every upstream *)
+| HLimits (c : hcfg) (obs : list Z).
 
 Definition check (c : c11case) : bool :=
   match c with
@@ -68,4 +71,5 @@ Definition check (c : c11case) : bool :=
   | HSet old healthy nw swapped =>
       (set_healthy old healthy =? nw) && Bool.eqb swapped (negb (set_healthy old healthy =? old))
   | HMaxFails cf obs => max_fails cf =? obs
+  | HLimits cf obs => zlist_eqb (max_conns cf) obs
   end.
